@@ -313,6 +313,92 @@ def replay_optional_flag(desc):
 
 
 
+def forced_shape(cname):
+    """a constraint declared optional and forced to be applied (ForceApplyNOptionalConstraints exact 1 of [C]) means
+    exactly what the same constraint declared mandatory means (twin builds, both directions)"""
+    name = f"forced_equals_mandatory/{cname}"
+
+    def declare(optional):
+        from checks import c05
+        from checks import c18
+        cls = getattr(ps, cname)
+        e = c18._env()
+        req = [f for f, fi in cls.model_fields.items() if fi.is_required()]
+        kw = {r: c18.REQUIRED[r](e) for r in req}
+        if cname.startswith("OptionalTask"):
+            kw.update({x: e["o1"] for x in ("task", "task_2") if x in kw})
+        if cname == "IndicatorBounds":
+            kw["upper_bound"] = 40
+        if cname == "IndicatorTarget":
+            kw["value"] = 3
+        if cname in ("TasksEndSynced", "TasksStartSynced"):
+            kw["task_2"] = e["t3"]
+        if cname.startswith("ResourcePeriodically"):
+            kw.update(list_of_time_intervals=[(0, 1)], period=6)
+        c = cls(name="under_test", optional=optional, **kw)
+        if optional:
+            ps.ForceApplyNOptionalConstraints(name="force", list_of_optional_constraints=[c], nb_constraints_to_apply=1, kind="exact")
+        return c
+
+    def build(P):
+        pb1 = ps.SchedulingProblem(name="mandatory", horizon=12)
+        declare(False)
+        s1 = ps.SchedulingSolver(problem=pb1)
+        s1.initialize()
+        phi_m = list(s1._solver.assertions())
+        pb2 = ps.SchedulingProblem(name="forced", horizon=12)
+        c = declare(True)
+        return Ctx(problem=pb2, phi_m=phi_m, named={"applied": c._applied})
+
+    def obligations(ctx):
+        from checks.common import buffer_witness
+        c1, _ = formula.constants(ctx.phi_m)
+        c2, _ = formula.constants(ctx.phi)
+        shared = [c for n, c in c2.items() if n in c1 and "_maybe_busy_" not in n]
+        return [Ob(f"{PROP}/{name}/forced_admits_every_schedule_of_mandatory", "complete", valid=And(buffer_witness(list(ctx.phi_m))), observables=shared,
+                   phi=list(ctx.phi), transform=buffer_witness, replayer="checks.c10:replay_forced"),
+                Ob(f"{PROP}/{name}/forced_admits_nothing_more", "complete", valid=And(buffer_witness(list(ctx.phi))), observables=shared,
+                   phi=list(ctx.phi_m), transform=buffer_witness, replayer="checks.c10:replay_forced")]
+
+    sh = Shape(name, build, obligations)
+    sh.grid = False
+    sh.declare = declare
+    return sh
+
+
+def replay_forced(desc):
+    import symx.harness as H
+    from symx import engine
+    from symx.harness import quiet
+
+    shape = H.get_shape(desc["module"], desc["shape"])
+    w = desc["witness"]
+    res = {}
+    for optional in (False, True):
+        with quiet():
+            pb = ps.SchedulingProblem(name="replay", horizon=12)
+            shape.declare(optional)
+            probe = ps.SchedulingSolver(problem=pb)
+            probe.initialize()
+            consts, _ = formula.constants(list(probe._solver.assertions()))
+            k = 0
+            for n, v in (w.get("pins") or {}).items():
+                if "!" in n or n not in consts or "_maybe_busy_" in n or n.startswith(("Selected_", "constraint_", "Indicator_", "task_group_")):
+                    continue
+                if not isinstance(v, (bool, int)) or not (z3.is_int(consts[n]) or z3.is_bool(consts[n])) or z3.is_bool(consts[n]) != isinstance(v, bool):
+                    continue
+                ps.ConstraintFromExpression(name=f"__pin_{k}", expression=(consts[n] == (z3.BoolVal(v) if isinstance(v, bool) else v)))
+                k += 1
+            res[optional] = bool(ps.SchedulingSolver(problem=pb).solve())
+        engine.reset_z3_globals()
+    print(f"replay: pinned schedule: mandatory constraint -> {res[False]}; optional constraint forced to apply -> {res[True]}")
+    if res[False] != res[True]:
+        print("CONFIRMED: an optional constraint that is forced to apply does not mean what the mandatory constraint means")
+        return 1
+    return 0
+
+
+
 def expression_shape(which):
     name = f"expression/{which}"
 
@@ -400,6 +486,7 @@ def shapes(tier):
         out.append(expression_shape(which))
     for cname in _optional_classes():
         out.append(optional_flag_shape(cname))
+        out.append(forced_shape(cname))
     # de-duplicate by name
     seen, res = set(), []
     for s in out:
